@@ -1,6 +1,6 @@
 import os
 from vp.api import Q, Mutant
-TITLE = "Schedulers never lose or duplicate a ready task (all 11 modules)"
+TITLE = "Schedulers never lose or duplicate a ready task (10 of the 11 modules; ltq not within reach)"
 MODS = ["ap", "gd", "ip", "rnd", "spq", "ll", "llp", "lhq", "lfq", "ltq", "pbq"]
 UNIT = {m: "parsec/mca/sched/%s/sched_%s_module.c" % (m, m) for m in MODS}
 WIRED = ("lfq", "ltq", "pbq")          # two barriers inside flow_init: queues wired by the harness
@@ -15,6 +15,9 @@ OUTSIDE = [
     "the queues with the same helper calls (PARSEC_OBJ_NEW(parsec_dequeue_t), parsec_hbbuffer_new(size, 1, "
     "parsec_mca_sched_push_in_system_queue_wrapper, sched_obj), neighbour order (th_id+nq)%nb_cores); a mutation of these three "
     "flow_init functions is not covered",
+    "ltq (tree queues over maxheap.c): NOT covered.  Measured: with the same patches as lfq/pbq, streams, distances and even "
+    "priorities enumerated, 2 tasks (1+1), 1-slot buffers, CBMC's symbolic execution alone does not finish in 200-300 s (it stalls in "
+    "parsec_hbbuffer_push_all / heap_remove on heap objects stored as list items); no verdict => no claim for this module; maxheap.c itself is C35",
     "more than 3 streams / 5 tasks / 2 schedule calls + 1 re-schedule per history; rings longer than 3; distances > 2",
     "lhq topologies other than: level 0 shared by all streams, deeper levels private to each stream (hwloc calls are stubs)",
     "bounded-buffer sizes other than the enumerated ones (lfq/ltq/pbq wired with 1 or 2 slots to force overflow; lhq's 96*(level+1)/cores "
@@ -30,8 +33,10 @@ ASSUMPTIONS = [
     "rnd: rand() returns an arbitrary non-negative int (input)",
     "caller contract: a ring handed to schedule is a well-formed ring of detached tasks; a task is re-scheduled only by the stream that got it from select",
 ]
-BOUNDS = {"quick": {"streams": 2, "tasks": "3", "rings": "2 (+1 re-schedule)", "distance": "0..2 symbolic", "priorities": "0..2 symbolic"},
-          "thorough": {"streams": "2..3", "tasks": "3..5", "rings": "2 (+1 re-schedule)", "distance": "0..2 symbolic", "priorities": "0..2 symbolic"}}
+BOUNDS = {"quick": {"streams": 2, "tasks": "3..4", "rings": "2: (2,1) (1,2) (3,1)", "distance": "0..2 symbolic (spq, lhq: enumerated)", "priorities": "0..2 symbolic",
+                    "streams of the calls": "symbolic (spq, lhq, rnd: enumerated)", "bounded buffers": "1 slot (lfq, pbq), 2 slots (lhq scaled)"},
+          "thorough": {"streams": "2..3", "tasks": "3..4", "rings": "2 (+1 re-schedule of a selected task)", "distance": "0..2 symbolic (spq, lhq: enumerated)",
+                       "priorities": "0..2 symbolic", "bounded buffers": "1..2 slots", "second VP": "ap, ll"}}
 
 CMP_PATCH = (CFG, r"#define COMPARISON_VAL\(it, off\).*", "#define COMPARISON_VAL(it, off) (*(int*)((char*)(it)+(off)))")
 ES_PATCH = (ES_H, r"execution_streams\[1\]", "execution_streams[NES]")
@@ -136,6 +141,12 @@ def _q(m, nes=2, n1=2, n2=1, resched=False, tiers=("quick", "thorough"), qsize=N
     if m == "lhq":
         defs += ["NEED_HWLOC", "HW_LEVELS=2"]
         stubs.append("parsec_hwloc_nb_levels/master_id/nb_cores -> fixed 2-level topology (level 0 shared, level 1 private)")
+        # malloc(nb_hierarch_queues * sizeof(ptr)) with the count read back from memory leaves every queue pointer (and so
+        # the parent-push callback) unresolved for CBMC (1 task, distance 1: no verdict in 300 s); constant extent: 8 s.
+        patches.append((UNIT[m], r"\(parsec_hbbuffer_t \*\*\)malloc\(sched_obj->nb_hierarch_queues \* sizeof\(parsec_hbbuffer_t\*\) \)",
+                        "(parsec_hbbuffer_t **)malloc(sizeof(parsec_hbbuffer_t*[HW_LEVELS]))"))
+        stubs.append("lhq: hierarch_queues array allocated with the constant extent HW_LEVELS (= nb_hierarch_queues of the topology stub)")
+        unwindset += ["parsec_hbbuffer_push_all:2", "parsec_mca_sched_push_in_buffer_wrapper:1"]
         if lhq_small:
             # queue_size = 96*(level+1)/nbcores, at least nbcores: scaled to 1*(level+1)/nbcores so that rings overflow to the parent
             patches.append((UNIT[m], r"int queue_size = 96 \* \(level\+1\) / nbcores;", "int queue_size = 1 * (level+1) / nbcores;"))
@@ -163,20 +174,96 @@ def _q(m, nes=2, n1=2, n2=1, resched=False, tiers=("quick", "thorough"), qsize=N
 
 def queries(ctx):
     qs = []
-    for m in ["ap", "gd", "ip", "rnd", "ll", "llp"]:
+    both, th = ("quick", "thorough"), ("thorough",)
+    # --- shared-queue modules and per-stream LIFOs: real flow_init, symbolic streams and distances
+    for m in ["ap", "gd", "ip", "ll", "llp"]:
         qs.append(_q(m))
+        qs.append(_q(m, n1=1, n2=2, tiers=both if m == "llp" else th))
+        qs.append(_q(m, resched=True, tiers=th))
+        qs.append(_q(m, n1=3, n2=1, tiers=th, unwind=7))
+        qs.append(_q(m, nes=3, tiers=th, unwind=7))
+    qs.append(_q("ap", two_vp=True, tiers=th))
+    qs.append(_q("ll", two_vp=True, tiers=th))
+    # rnd: the merge sort of the ring dominates; streams enumerated in the quick tier
+    qs.append(_q("rnd", streams=(0, 1, 1)))
+    qs.append(_q("rnd", tiers=th))
+    qs.append(_q("rnd", resched=True, streams=(1, 0, 0), tiers=th))
+    # spq: distances and streams enumerated (symbolic ones: no verdict in 20 min)
     for d in [(0, 1), (1, 1), (1, 0)]:
-        for st in [(0, 1, 1), (1, 0, 0)]:
-            qs.append(_q("spq", dist=d, streams=st))
-    qs.append(_q("lhq", lhq_small=True))
-    qs.append(_q("lhq", tiers=("thorough",)))
-    for m in WIRED:
-        qs.append(_q(m, qsize=1))
-        qs.append(_q(m, qsize=2))
+        for st in [(0, 1, 1), (1, 0, 0), (0, 0, 1), (1, 1, 0)]:
+            quick = (d, st) in [((0, 1), (0, 1, 1)), ((1, 1), (1, 0, 0)), ((1, 0), (0, 0, 1))]
+            qs.append(_q("spq", dist=d, streams=st, tiers=both if quick else th))
+            qs.append(_q("spq", dist=d, streams=st, resched=True, tiers=th))
+    # lhq: real flow_init over a 2-level topology; queue sizes scaled down (overflow), distances and streams enumerated
+    for (n1, n2, d, st, quick) in [(2, 1, (0, 1), (0, 1, 1), True), (2, 1, (1, 0), (0, 1, 1), True), (2, 1, (2, 1), (1, 0, 0), True),
+                                   (3, 1, (0, 0), (0, 1, 1), True), (2, 1, (0, 2), (0, 1, 1), False), (2, 1, (2, 0), (0, 1, 1), False),
+                                   (2, 1, (2, 2), (1, 0, 0), False), (3, 1, (1, 0), (0, 1, 1), False), (3, 1, (0, 1), (1, 0, 0), False)]:
+        qs.append(_q("lhq", n1=n1, n2=n2, lhq_small=True, dist=d, streams=st, tiers=both if quick else th, unwind=7))
+    # lfq / pbq: queues wired by the harness (flow_init not covered), 1 or 2 slots per bounded buffer
+    for m in ("lfq", "pbq"):
+        qs.append(_q(m, qsize=1, tiers=both if m == "lfq" else th))
+        qs.append(_q(m, qsize=1, n1=1, n2=2))            # ring of 2 onto a full 1-slot buffer
+        qs.append(_q(m, qsize=2, tiers=th))
+        qs.append(_q(m, qsize=1, resched=True, tiers=th))
+        qs.append(_q(m, qsize=2, n1=3, n2=1, tiers=th, unwind=7))
     return qs
 
 
 def mutants(ctx):
-    return []
+    LIST, LIFO, HBC = "parsec/class/list.h", "parsec/class/lifo.h", "parsec/hbbuffer.c"
+    return [
+        # bounded buffer full: the rest of the ring is no longer re-attached before going to the parent store
+        Mutant("hbbuffer_push_all_drops_rest", HBC, "    if( NULL != next ) {\n        parsec_list_item_ring_push(next, elt);\n    }\n", "",
+               queries=["lfq_e2_12_q1"]),
+        # priority push: the unexamined rest of the list is not merged into the ejected ring when the buffer is full
+        Mutant("hbbuffer_by_priority_drops_rest", HBC, "            if( NULL != list )\n                parsec_list_item_ring_merge( ejected, list );\n", "",
+               queries=["pbq_e2_12_q1"]),
+        # lock-free LIFO: chaining a ring forgets to link its tail to the old head
+        Mutant("lifo_chain_loses_old_head", LIFO, "        tail->list_next = next;\n        parsec_atomic_wmb ();\n\n        /* to protect against ABA issues it is sufficient to only update the counter in pop */\n        if (parsec_atomic_cas_ptr(&lifo->lifo_head.data.item, next, ring)) {",
+               "        parsec_atomic_wmb ();\n\n        /* to protect against ABA issues it is sufficient to only update the counter in pop */\n        if (parsec_atomic_cas_ptr(&lifo->lifo_head.data.item, next, ring)) {",
+               queries=["ll_e2_21"]),
+        # ll: the steal loop starts one stream too far (with two streams it never visits the neighbour)
+        Mutant("ll_select_skips_neighbour", UNIT["ll"], "for(i = (es->th_id + 1) % es->virtual_process->nb_cores;\n            i != es->th_id;\n            i = (i+1) % es->virtual_process->nb_cores) {\n            d++;",
+               "for(i = (es->th_id + 2) % es->virtual_process->nb_cores;\n            i != es->th_id;\n            i = (i+1) % es->virtual_process->nb_cores) {\n            d++;",
+               queries=["ll_e2_21"]),
+        # llp: single-writer shortcut re-installs the new ring instead of the merged list
+        Mutant("llp_single_writer_installs_ring", UNIT["llp"], "        lifo->lifo_head.data.guard.counter++;\n        parsec_atomic_wmb();\n        lifo->lifo_head.data.item = list;",
+               "        lifo->lifo_head.data.guard.counter++;\n        parsec_atomic_wmb();\n        lifo->lifo_head.data.item = ring;", queries=["llp_e2_12"]),
+        # llp: merged ring not linked to the remainder of the old list
+        Mutant("llp_merge_drops_tail", UNIT["llp"], "            ring->list_prev->list_next = next;\n            ring->list_prev = NULL;\n            break;",
+               "            ring->list_prev->list_next = NULL;\n            ring->list_prev = NULL;\n            break;", queries=["llp_e2_21"]),
+        # list: insertion before a position forgets the forward link of the predecessor
+        Mutant("list_add_before_missing_forward_link", LIST, "    newel->list_next = position;\n    position->list_prev->list_next = newel;\n    position->list_prev = newel;",
+               "    newel->list_next = position;\n    position->list_prev = newel;", queries=["ap_e2_21", "ip_e2_21", "spq_e2_21_d11_s100"]),
+        # list/dequeue: chaining a ring at the back does not advance the tail to the end of the ring
+        Mutant("list_chain_back_tail_not_advanced", LIST, "    _TAIL(list)->list_next = items;\n    _TAIL(list) = tail;\n    parsec_list_unlock(list);",
+               "    _TAIL(list)->list_next = items;\n    _TAIL(list) = items;\n    parsec_list_unlock(list);", queries=["gd_e2_21", "lfq_e2_21_q1"]),
+        # spq: select keeps scanning the buckets after it found a task (later pops overwrite it)
+        Mutant("spq_select_no_break", UNIT["spq"], "#endif\n            break;\n        }\n    }\n    parsec_list_unlock(&task_list->super);\n    return task;",
+               "#endif\n        }\n    }\n    parsec_list_unlock(&task_list->super);\n    return task;", queries=["spq_e2_21_d01_s011", "spq_e2_21_d10_s001"]),
+        # gd: high-priority ring chained in front with the back primitive's bookkeeping swapped is covered by list mutants; here the
+        # select pops from an empty-check that is inverted
+        Mutant("lhq_select_skips_top_level", UNIT["lhq"], "for(i = 0; i <  PARSEC_MCA_SCHED_LOCAL_QUEUES_OBJECT(es)->nb_hierarch_queues; i++ ) {",
+               "for(i = 0; i <  PARSEC_MCA_SCHED_LOCAL_QUEUES_OBJECT(es)->nb_hierarch_queues - 1; i++ ) {",
+               queries=["lhq_e2_21_small_d10_s011", "lhq_e2_21_small_d21_s100"]),
+        # rnd: the re-sorted ring is dropped, only its head is chained
+        Mutant("rnd_chains_singleton", UNIT["rnd"], "new_context = (parsec_task_t*)parsec_list_nolock_unchain(&tmp);",
+               "new_context = (parsec_task_t*)parsec_list_nolock_unchain(&tmp); parsec_list_item_singleton(&new_context->super);", queries=["rnd_e2_21_s011"]),
+    ]
 
-CLAIMED = False
+CLAIMED = True
+MANIFEST = {
+ "engine": "cbmc-src",
+ "text": "Bounded model checking of the real schedule/select (and, except for lfq/pbq, flow_init) functions of ten scheduler modules "
+         "(ap, gd, ip, rnd, spq, ll, llp, lhq, lfq, pbq) over the real list/dequeue/lifo/hbbuffer code: 3-4 tasks are handed to the module "
+         "as two rings from symbolic streams with symbolic distances and priorities, selections from symbolic streams are interleaved, "
+         "then every stream drains; a bookkeeping oracle in the harness requires that a select only ever returns a task that is pending "
+         "(never twice, never an unknown pointer), that all tasks have come out when every stream reports empty, and, for the modules "
+         "whose streams can reach every queue, that NULL is only returned when nothing is pending.  Bounded buffers are 1-2 slots so "
+         "that the overflow-to-parent paths run.",
+ "note": "operations are complete (no interleaving inside schedule/select: containers' own properties); ltq not covered (no verdict "
+         "within budget); lfq/pbq queues wired by the harness (their two-barrier flow_init is not executed); spq/lhq distances and "
+         "streams enumerated; lhq on one 2-level topology with scaled queue sizes; overlays: typed allocations for struct-hack "
+         "arrays, pointer-typed CAS, field-wise 128-bit CAS of the LIFO head, char* priority access.",
+ "technique": "CBMC bounded symbolic execution of the real C units + SAT (cadical); operation histories with symbolic streams/distances/priorities",
+}
